@@ -244,3 +244,11 @@ Proof. intros [A [B [C D]]]. destruct (synced v) eqn:S.
 Lemma reach_inv_index v : reach_inv v ->
   (N.to_nat (N.shiftr (hist_pos v) ConstsPrbs.prbs_hist_byte_shift) < length (history v))%nat.
 Proof. intros [A [B _]]. rewrite A. change ConstsPrbs.prbs_hist_byte_shift with 3. apply (pos_split _ B). Qed.
+
+(** reset() returns the validator to the state of a new object with a zeroed window, whatever it held: every member is assigned
+    (the assignments are read from the source: the ConstsPrbs.prbs_reset_ constants), so the fresh-state theorems apply after every reset *)
+Lemma reset_is_fresh (v : prbs) :
+  prbs_reset v = mkPRBS 1 false 0 0 0 (repeat 0 16) 0 0 /\
+  synced (prbs_reset v) = false /\ state (prbs_reset v) < 512 /\ sync_count (prbs_reset v) <= 9 /\
+  bit_count (prbs_reset v) < 2 ^ 32 /\ err_count (prbs_reset v) < 2 ^ 32.
+Proof. split; [reflexivity|]. cbn. repeat split; try reflexivity; try discriminate. Qed.
